@@ -18,7 +18,9 @@ M2 (second half) — `Event`, `Event.__lt__` and `EventQueue` of /repo/simulator
   `heappush`, `next` = `heappop` (`IndexError` when empty), `peek` = `a[0]` or `None`,
   `remove_event` = `list.remove` (`ValueError` when absent, and then no re-heapify) followed
   by `heapify`, `get_next_event_of_type` = `min(filter(type == t))` i.e. the first minimum in
-  array order, `reheapify` = `heapify`. The simulator re-times queued events *in place*
+  array order, `reheapify` = `heapify`. `sorted(events)` (simulator.py:1020) is CPython's list
+  sort for fewer than 64 elements (initial run detection + binary insertion), exact also when
+  `__lt__` is not a weak order; on well-formed events it is *the* stable sort. The simulator re-times queued events *in place*
   (`event._time = …`, simulator.py:816, 1135) and then calls `reheapify()`; `retime`
   models the in-place edit (every entry holding that object changes), `retimeReheapify`
   the pair.
@@ -96,15 +98,8 @@ def retime (q : EventQueue) (eid : Nat) (t : Int) : EventQueue :=
 def retimeReheapify (q : EventQueue) (eid : Nat) (t : Int) : EventQueue :=
   reheapify (retime q eid t)
 
-/-- Insert `x` in front of the first element that is not `<` it (stable insertion). -/
-def insertSorted (x : Event) : List Event → List Event
-  | [] => [x]
-  | y :: ys => if Event.lt y x then y :: insertSorted x ys else x :: y :: ys
-
-/-- `sorted(events)`: a stable sort under `__lt__` (insertion sort from the right is stable;
-on well-formed events, where `__lt__` is a strict weak order, every stable sort gives the
-same list). -/
-def sorted (l : List Event) : List Event := l.foldr insertSorted []
+/-- `sorted(events)`: CPython's list sort under `__lt__` (see `Heap.pySorted`). -/
+def sorted (l : List Event) : List Event := Heap.pySorted Event.lt l
 
 end EventQueue
 
